@@ -1997,6 +1997,37 @@ func outerFamilies(ctx *core.Ctx, r *hx.Rand, mul int) {
 			c13Op{Op: "unlock", T: 1}, c13Op{Op: "unlock", T: 2})
 		c13Run(ctx, c13Input{Kind: "script", Lock: "outer", N: 3, Keys: 1, GraceMs: 50, Ops: ops})
 	}
+	for rep := 0; rep < 8*mul; rep++ {
+		// E: a writer's grace period concerns the readers that were there when the WRITER came, and
+		// ends with that writer: a whole Lock..unlock cycle that finishes well inside the grace period
+		// (no readers, or readers that release promptly), then a NEW reader is admitted and is
+		// looked at again after the period has expired: it must still be live (nobody asked it to
+		// stop); in half of the scripts a second writer then asks inside the first one's window and
+		// the late reader must get its own whole period (grace 150 ms, really waited for)
+		var ops []c13Op
+		early := r.Intn(3) // readers that are there before the writer and release promptly
+		for t := 1; t <= early; t++ {
+			ops = append(ops, c13Op{Op: "rlock", T: t, C: r.Intn(nCtx)})
+		}
+		ops = append(ops, c13Op{Op: "lock", T: 0})
+		for t := 1; t <= early; t++ {
+			ops = append(ops, c13Op{Op: "unlock", T: t})
+		}
+		ops = append(ops, c13Op{Op: "unlock", T: 0}, c13Op{Op: "rlock", T: 3, C: r.Intn(nCtx)})
+		if r.Chance(1, 2) {
+			ops = append(ops, c13Op{Op: "rlock", T: 4, C: r.Intn(nCtx)})
+		}
+		second := r.Chance(1, 2)
+		if second {
+			ops = append(ops, c13Op{Op: "lock", T: 0}) // waits for the late readers' own grace period
+		}
+		ops = append(ops, c13Op{Op: "grace"})
+		if !second {
+			ops = append(ops, c13Op{Op: "lock", T: 0}, c13Op{Op: "grace"})
+		}
+		ops = append(ops, c13Op{Op: "unlock", T: 0}, c13Op{Op: "unlock", T: 3}, c13Op{Op: "unlock", T: 4})
+		c13Run(ctx, c13Input{Kind: "script", Lock: "outer", N: 5, Keys: 1, GraceMs: 150, Ops: ops})
+	}
 	for rep := 0; rep < 10*mul; rep++ {
 		// D: readers whose PARENT context ends while they hold (told to stop, not released) - that is
 		// not a release: a writer that comes now must still wait for their release (hours of grace
@@ -2049,6 +2080,16 @@ func outerFamilies(ctx *core.Ctx, r *hx.Rand, mul int) {
 				ops = append(ops, c13Op{Op: "cancel", C: cs[t-1]})
 				cancelled++
 			}
+		}
+		if rep%4 == 3 {
+			// ... or the lock is shut down while they queue: every queued reader must come back
+			// ("closed" or its context's error), also the one that is still blocked sending
+			ops = append(ops, c13Op{Op: "shutdown"}, c13Op{Op: "unlock", T: 0})
+			for t := 1; t <= readers; t++ {
+				ops = append(ops, c13Op{Op: "unlock", T: t})
+			}
+			run(5, ops)
+			continue
 		}
 		ops = append(ops, c13Op{Op: "unlock", T: 0})
 		for t := 1; t <= readers; t++ {
